@@ -121,6 +121,7 @@ func c10(c *Ctx) {
 	defer c.keywordFlagsAreOpaque("R10.8")
 	defer c.noLengthLimitsInTheParser("R10.9")
 	defer c.lookAheadIsConsumedOnce("R10.10")
+	defer c.parserDoesNotComputeWithSeqNums("R10.11")
 	P, R := c.P, c.R
 	R.Explain("R10.1", "case folding (flow): in imap/command every string comparison (==, !=, switch case) against a constant that contains a letter has a lower-case constant and a dynamic side all of whose producers are lower-casing operations (strings.ToLower, rfcparser.String.ToLower, bytes collected through ByteToLower), or uses strings.EqualFold; every command-registry lookup key is lowered; the case-sensitive Parser.ConsumeBytes is never called with a letter; byte comparisons against a letter constant compare a ByteToLower result.")
 	R.Explain("R10.3", "T-EXHAUST: every type implementing command.Builder is registered in Parser.commands or UIDCommandParser.commands (or dispatched explicitly), registry keys are lower-case, and every command.Payload type has a case in the session dispatch (handleCommand / handleWithMailbox / handleUID / serve / command reader).")
